@@ -50,8 +50,11 @@ def replace_source(facts):
     repl = one([f for f in fs if shape_is(f['shape'], 'vec::Vec')
                 and isinstance(shape_arg(f['shape']), dict)
                 and shape_arg(f['shape']).get('adt', '') in facts.adts], 'ReplaceSource: Vec<local struct> field')
-    idx = one([f for f in fs if shape_is(f['shape'], 'Mutex')
-               and shape_is(shape_arg(f['shape']), 'vec::Vec')], 'ReplaceSource: Mutex<Vec<_>> field')
+    def mutex_vec(sh):
+        if shape_is(sh, 'sync::Arc'):
+            sh = shape_arg(sh)
+        return shape_is(sh, 'Mutex') and shape_is(shape_arg(sh), 'vec::Vec')
+    idx = one([f for f in fs if mutex_vec(f['shape'])], 'ReplaceSource: Mutex<Vec<_>> field')
     flag = one([f for f in fs if is_atomic_bool(f['shape'])], 'ReplaceSource: AtomicBool field')
     inner = one([f for f in fs if shape_is(f['shape'], 'sync::Arc')
                  and isinstance(shape_arg(f['shape']), dict) and 'param' in shape_arg(f['shape'])],
